@@ -60,6 +60,8 @@ class _B:
     def __init__(self, mn_full: bool, op_full: bool) -> None:
         self.mn_full, self.op_full = mn_full, op_full
         self.k = 0
+        self.history: List[List[List[Any]]] = []     # operands of the records built so far
+        self.full: List[Tuple[List[Any], List[List[Any]]]] = []
 
     def mn(self, name: str) -> List[Any]:
         self.k += 1
@@ -75,8 +77,35 @@ class _B:
 
     def rec(self, mnemonic: Optional[str], operands: Sequence[Optional[str]] = ()) -> List[Any]:
         self.k += 1
-        return record(f"a{self.k}", self.mn(mnemonic) if mnemonic else self.other(),
-                      [self.op(o) if o else self.other() for o in operands])
+        mn = self.mn(mnemonic) if mnemonic else self.other()
+        ops = [self.op(o) if o else self.other() for o in operands]
+        self.history.append(ops)
+        self.full.append((mn, ops))
+        return record(f"a{self.k}", mn, ops)
+
+
+def _with(b: "_B", mnemonic: str, operands: Sequence[Any]) -> List[Any]:
+    """a record whose operands may repeat an operand of an earlier record: ('same', record index, operand index)"""
+    ops = []
+    for o in operands:
+        if isinstance(o, tuple) and o[0] == "same":
+            ops.append(list(b.history[o[1]][o[2]]))
+        elif o:
+            ops.append(b.op(o))
+        else:
+            ops.append(b.other())
+    b.k += 1
+    b.history.append(ops)
+    return record(f"a{b.k}", b.mn(mnemonic), ops)
+
+
+def _same_rec(b: "_B", idx: int) -> List[Any]:
+    """the same instruction text as record idx, at a new address"""
+    b.k += 1
+    mn, ops = b.full[idx]
+    b.history.append(ops)
+    b.full.append((mn, ops))
+    return record(f"a{b.k}", mn, ops)
 
 
 def cases() -> List[Tuple[str, str, Any, List[str], List[Tuple[str, Any, Optional[Tuple[int, int]]]]]]:
@@ -146,6 +175,18 @@ def cases() -> List[Tuple[str, str, Any, List[str], List[Tuple[str, Any, Optiona
         ("m z,w,r", lambda b: [b.rec("M", [None, None, "R"])], (0, 0)),
         ("m z,p,r", lambda b: [b.rec("M", [None, "P", "R"])], None),
         ("m z,r", lambda b: [b.rec("M", [None, "R"])], None),
+    ]))
+    cap = [{S("M1"): ["&x", S("O1")]}, {S("M2"): ["&x", "&y"]}, {S("M3"): ["&y"]}]
+    out.append(("C05", "m1: [&x, o1]; m2: [&x, &y]; m3: [&y]", cap, ["M1", "O1", "M2", "M3"], [
+        ("same operand text again, second name bound later", lambda b: [b.rec("M1", [None, "O1"]), _with(b, "M2", [("same", 0, 0), None]), _with(b, "M3", [("same", 1, 1)])], (0, 2)),
+        ("&x differs at its second occurrence", lambda b: [b.rec("M1", [None, "O1"]), b.rec("M2", [None, None]), b.rec("M3", [None])], None),
+        ("&y differs at its second occurrence", lambda b: [b.rec("M1", [None, "O1"]), _with(b, "M2", [("same", 0, 0), None]), b.rec("M3", [None])], None),
+        ("&x equal only to the other operand of the first instruction", lambda b: [b.rec("M1", [None, "O1"]), _with(b, "M2", [("same", 0, 1), None]), _with(b, "M3", [("same", 1, 1)])], None),
+    ]))
+    icap = ["&i", S("X"), "&i"]
+    out.append(("C05", "&i, x, &i (instruction captures)", icap, ["X"], [
+        ("the same instruction (mnemonic and operands) again, at another address", lambda b: [b.rec(None, [None]), b.rec("X"), _same_rec(b, 0)], (0, 2)),
+        ("another instruction in third place", lambda b: [b.rec(None, [None]), b.rec("X"), b.rec(None, [None])], None),
     ]))
     t2 = [{S("M"): {"times": 2}}, S("N")]
     out.append(("C02", "m times 2, n", t2, ["M", "N"], [
